@@ -22,41 +22,41 @@ def HistoryIndependent (U : Universe) : Prop :=
 def witnessU : Universe :=
   ⟨[ { name := "C".toList, base := none, isModel := true, inPkg := true, ns := none, mname := none,
        targetNs := none, moduleNs := none, globalType := true, inner := false, bad := false,
-       fields := [⟨"x".toList, .element, none, none, none⟩] },
+       fields := [⟨"x".toList, .element, none, none, none, none⟩] },
      { name := "PA".toList, base := none, isModel := true, inPkg := true, ns := some (some "urn:a".toList),
        mname := none, targetNs := none, moduleNs := none, globalType := true, inner := false, bad := false,
-       fields := [⟨"c".toList, .element, none, none, some 0⟩] },
+       fields := [⟨"c".toList, .element, none, none, some 0, none⟩] },
      { name := "PB".toList, base := none, isModel := true, inPkg := true, ns := some (some "urn:b".toList),
        mname := none, targetNs := none, moduleNs := none, globalType := true, inner := false, bad := false,
-       fields := [⟨"c".toList, .element, none, none, some 0⟩] } ]⟩
+       fields := [⟨"c".toList, .element, none, none, some 0, none⟩] } ]⟩
 
 def w3 : World := ⟨3, 0⟩
 
-/-- **The full statement is false of the code as it stands** (finding C14-F1):
-after `C` has been built as a child of `PA` (parent namespace `urn:a`), building
-it as a child of `PB` returns the cached `urn:a` metadata. -/
-theorem cache_parent_ns_counterexample : ¬ HistoryIndependent witnessU := by
-  intro h
-  have := h [(w3, .build 0 (some "urn:a".toList))] w3 (.build 0 (some "urn:b".toList))
-  revert this
-  decide
-
-/-- the contaminated result, spelled out: the shared context answers with qname
-`{urn:a}C` and element `{urn:a}x`, a fresh one with `{urn:b}C` / `{urn:b}x` -/
-theorem cache_parent_ns_witness_values :
+/-- the former witness of C14-F1 (cache keyed by class only): after `C` has been
+built as a child of `PA` (parent namespace `urn:a`), building it as a child of
+`PB` now returns the `urn:b` metadata, as on a fresh context — the cache is keyed
+by `(class, parent_ns)`.  (The general statement is `build_history_independent`.) -/
+theorem cache_parent_ns_repaired :
     (step witnessU w3 (run witnessU State.init [(w3, .build 0 (some "urn:a".toList))])
         (.build 0 (some "urn:b".toList))).2
-      = outMeta (pureBuild witnessU 0 (some "urn:a".toList)) ∧
+      = fresh witnessU w3 (.build 0 (some "urn:b".toList)) ∧
     fresh witnessU w3 (.build 0 (some "urn:b".toList))
       = outMeta (pureBuild witnessU 0 (some "urn:b".toList)) ∧
     outMeta (pureBuild witnessU 0 (some "urn:a".toList)) ≠ outMeta (pureBuild witnessU 0 (some "urn:b".toList)) := by
   decide
 
-/-- (finding C14-F2) the type index is only refreshed when `len(sys.modules)`
+/-- **The full statement is still false** (finding C14-F2, a heuristic by design): the type index is only refreshed when `len(sys.modules)`
 changes: a class defined later in an already imported module stays invisible
 to a shared context. World 1: only `C` exists; world 2: `PA`, `PB` were defined
 without importing a module. -/
-theorem stale_index_counterexample :
+theorem stale_index_counterexample : ¬ HistoryIndependent witnessU := by
+  intro h
+  have := h [(⟨1, 0⟩, .findType "PA".toList)] ⟨3, 0⟩ (.findType "{urn:a}PA".toList)
+  revert this
+  decide
+
+/-- the values of that witness -/
+theorem stale_index_witness_values :
     (step witnessU ⟨3, 0⟩ (run witnessU State.init [(⟨1, 0⟩, .findType "PA".toList)])
         (.findType "{urn:a}PA".toList)).2 = .gotType none ∧
     fresh witnessU ⟨3, 0⟩ (.findType "{urn:a}PA".toList) = .gotType (some 1) := by
@@ -66,22 +66,22 @@ theorem stale_index_counterexample :
 def evictU : Universe :=
   ⟨[ { name := "T".toList, base := none, isModel := true, inPkg := true, ns := some (some "urn:a".toList),
        mname := none, targetNs := none, moduleNs := none, globalType := true, inner := false, bad := true,
-       fields := [⟨"x".toList, .element, none, none, none⟩] },
+       fields := [⟨"x".toList, .element, none, none, none, none⟩] },
      { name := "T2".toList, base := none, isModel := true, inPkg := true, ns := some (some "urn:a".toList),
        mname := some "T".toList, targetNs := none, moduleNs := none, globalType := true, inner := false,
-       bad := false, fields := [⟨"x".toList, .element, none, none, none⟩] } ]⟩
+       bad := false, fields := [⟨"x".toList, .element, none, none, none, none⟩] } ]⟩
 
 /-- the same two classes, the unbuildable one created last (so that it is the
 one `find_type` picks: `types[-1]`) -/
 def evictU2 : Universe := ⟨evictU.classes.reverse⟩
 
-/-- (finding C14-F3, what remains after 7df03d4) `local_names_match` still evicts
-an unbuildable class from the *published* index.  The by-fields lookup itself is
-repaired — first and second lookup agree with each other and with a fresh
-context — but afterwards `find_types` no longer reports the evicted class, a
-repeated direct `local_names_match` raises `ValueError`, and `find_type` can
-switch from the unbuildable class (fresh context: the parse then fails with
-`XmlContextError`) to a buildable namesake (shared context: the parse succeeds). -/
+/-- (finding C14-F3, what remains) `local_names_match` evicts an unbuildable class
+from the *published* index, by design.  By-fields lookups and `local_names_match`
+itself are unaffected (first call = later calls = fresh context; the `ValueError`
+of a repeated eviction is suppressed), but afterwards `find_types` no longer
+reports the evicted class and `find_type` can switch from the unbuildable class
+(fresh context: the parse then fails with `XmlContextError`) to a buildable
+namesake (shared context: the parse succeeds). -/
 theorem eviction_residual_counterexample :
     fresh evictU ⟨2, 0⟩ (.findTypeByFields ["x".toList]) = .gotType (some 1) ∧
     (step evictU ⟨2, 0⟩ (run evictU State.init [(⟨2, 0⟩, .findTypeByFields ["x".toList])])
@@ -91,40 +91,69 @@ theorem eviction_residual_counterexample :
         (.findTypes "{urn:a}T".toList)).2 = .gotTypes [1] ∧
     fresh evictU ⟨2, 0⟩ (.localNamesMatch ["x".toList] 0) = .gotBool false ∧
     (step evictU ⟨2, 0⟩ (run evictU State.init [(⟨2, 0⟩, .findTypeByFields ["x".toList])])
-        (.localNamesMatch ["x".toList] 0)).2 = .raised .value ∧
+        (.localNamesMatch ["x".toList] 0)).2 = .gotBool false ∧
     fresh evictU2 ⟨2, 0⟩ (.findType "{urn:a}T".toList) = .gotType (some 1) ∧
     (step evictU2 ⟨2, 0⟩ (run evictU2 State.init [(⟨2, 0⟩, .findTypeByFields ["x".toList])])
         (.findType "{urn:a}T".toList)).2 = .gotType (some 0) := by
   decide
 
-/-- **history_independent_evicting** (new with 7df03d4): the third side condition
-of `history_independent_partial` is *not needed* for calls that do not read the
-index by qualified name.  For every history — by-fields lookups and
-`local_names_match` calls meeting unbuildable indexed classes, evictions and
-`ValueError`s included; only `fetch` with an xsi:type is excluded from the
-history — `build`, `fetch` without xsi:type, `serialize`, `find_type_by_fields`,
-`build_xsi_cache` and `reset` return on the shared context what they return on
-a fresh one, provided parent namespaces are consistent and `len(sys.modules)`
-is faithful.  In particular the first by-fields lookup equals every later one. -/
+/-- hence the full statement is false for this universe too -/
+theorem eviction_counterexample : ¬ HistoryIndependent evictU := by
+  intro h
+  have := h [(⟨2, 0⟩, .findTypeByFields ["x".toList])] ⟨2, 0⟩ (.findTypes "{urn:a}T".toList)
+  revert this
+  decide
+
+/-- **metadata_history_independent** — full strength, no hypothesis: for *every*
+universe and *every* history (any calls, failing ones, resets, classes and
+modules appearing at any time, evictions) the calls that do not consult the type
+index — `build`, `fetch` without an xsi:type, `serialize`, `local_names_match`,
+`build_xsi_cache`, `reset` — return on the shared context exactly what they
+return on a fresh one.  Cached binding metadata never carries namespace
+information from one use into another (false before the cache was keyed by
+`(class, parent_ns)`: former finding C14-F1). -/
+theorem metadata_history_independent (U : Universe) (h : List (World × Op)) (w : World) (op : Op)
+    (hfree : op.indexFree = true) :
+    (step U w (run U State.init h) op).2 = fresh U w op := by
+  obtain ⟨t', hI⟩ := run_invC h Track.empty State.init (InvR.init U _)
+  rw [(stepC_spec hI w op).2 hfree]
+  exact ((stepC_spec (InvR.init U Track.empty) w op).2 hfree).symm
+
+/-- in particular `build`, for every class, parent namespace and history -/
+theorem build_history_independent (U : Universe) (h : List (World × Op)) (w : World)
+    (c : ClassId) (p : Option Str) :
+    (step U w (run U State.init h) (.build c p)).2 = outMeta (pureBuild U c p) := by
+  obtain ⟨t', hI⟩ := run_invC h Track.empty State.init (InvR.init U _)
+  exact (stepC_spec hI w (.build c p)).2 rfl
+
+/-- **history_independent_evicting**: the side condition about evictions is not
+needed for calls that do not read the index by qualified name.  For every
+history in which `len(sys.modules)` is faithful — by-fields lookups and
+`local_names_match` calls meeting unbuildable indexed classes included —
+`find_type_by_fields` (and every index-free call) returns on the shared context
+what it returns on a fresh one.  In particular the first by-fields lookup
+equals every later one. -/
 theorem history_independent_evicting (U : Universe) (h : List (World × Op)) (w : World) (op : Op)
-    (hok : histOKW U Track.empty (h ++ [(w, op)])) (hblind : op.evictionBlind = true) :
+    (hok : histOKW Track.empty (h ++ [(w, op)])) (hblind : op.evictionBlind = true) :
     (step U w (run U State.init h) op).2 = fresh U w op := by
   obtain ⟨t', hI, hnext⟩ :=
-    run_invW h Track.empty State.init (InvR.init U _) (histOKW_prefix h _ _ hok)
+    run_invW (U := U) h Track.empty State.init (InvR.init U _) (histOKW_prefix h _ _ hok)
   have hstep := hnext w op hok
   rw [(stepW_spec hI hstep).2 hblind]
   exact ((stepW_spec (InvR.init U Track.empty) (okStepW_empty hstep)).2 hblind).symm
 
-/-- the hypotheses hold for a history that evicts `T`, hits the `ValueError`
-and then looks up by fields again -/
-example : histOKW evictU Track.empty
-    [(⟨2, 0⟩, .findTypeByFields ["x".toList]), (⟨2, 0⟩, .localNamesMatch ["x".toList] 0),
+/-- the hypotheses hold for a history that evicts `T`, calls `local_names_match`
+on it again, builds under two parent namespaces and then looks up by fields again -/
+example : histOKW Track.empty
+    [(⟨2, 0⟩, Op.findTypeByFields ["x".toList]), (⟨2, 0⟩, .localNamesMatch ["x".toList] 0),
      (⟨2, 0⟩, .findTypes "{urn:a}T".toList), (⟨2, 0⟩, .build 1 none),
+     (⟨2, 0⟩, .build 1 (some "urn:p".toList)),
+     (⟨2, 0⟩, .fetch 1 (some "urn:q".toList) (some "{urn:a}T".toList)),
      (⟨2, 0⟩, .findTypeByFields ["x".toList])] ∧
     (Op.findTypeByFields ["x".toList]).evictionBlind = true := by
   decide
 
-/-- whereas that history is outside `histOK` (condition iii) -/
+/-- whereas that history is outside `histOK` (no evictions) -/
 example : ¬ histOK evictU Track.empty [(⟨2, 0⟩, .findTypeByFields ["x".toList])] := by
   decide
 
@@ -142,16 +171,15 @@ theorem fresh_refines_spec (U : Universe) (w : World) (op : Op) (hok : okStep U 
     fresh U w op = pureOut U w op :=
   (step_spec (Inv.init U _) hok).1
 
-/-- **history_independent_partial**: the statement holds for every history in
-which (i) no class without `Meta.namespace` is requested under two different
-parent namespaces, (ii) `len(sys.modules)` changes whenever the set of loaded
-classes does, (iii) nothing has been evicted from the index:
-`find_type_by_fields` / `local_names_match` never meet an indexed class whose
-metadata cannot be built — all three decidable, checked call by call by
-`histOK`.  Failing calls are allowed anywhere in the history.  Since 7df03d4
-condition (iii) matters only for calls that read the index by qualified name
-(`find_types`, `find_type`, `find_subclass`, `fetch` with xsi:type); for all
-other calls see `history_independent_evicting`. -/
+/-- **history_independent_partial**: for calls that read the type index by
+qualified name (`find_types`, `find_type`, `find_subclass`, `fetch` with an
+xsi:type) — and hence for all calls — the statement holds for every history in
+which (ii) `len(sys.modules)` changes whenever the set of loaded classes does
+(C14-F2, a heuristic by design) and (iii) nothing has been evicted from the
+index: `find_type_by_fields` / `local_names_match` never meet an indexed class
+whose metadata cannot be built (C14-F3, by design) — both decidable, checked
+call by call by `histOK`.  Failing calls are allowed anywhere in the history.
+The former condition (i) on parent namespaces is gone with the repair of C14-F1. -/
 theorem history_independent_partial (U : Universe) (h : List (World × Op)) (w : World) (op : Op)
     (hok : histOK U Track.empty (h ++ [(w, op)])) :
     (step U w (run U State.init h) op).2 = fresh U w op := by
@@ -160,17 +188,14 @@ theorem history_independent_partial (U : Universe) (h : List (World × Op)) (w :
   rw [h1, fresh_refines_spec U w op (okStep_empty ht')]
 
 /-- the hypotheses are satisfiable by a non-trivial history with failing calls:
-`PA` and `PB` built, `C` requested twice under the same parent, an unknown class,
-a type lookup that misses, a reset -/
+`C` requested under *different* parent namespaces (the history that used to
+violate the former condition (i)), an unknown class, a type lookup that misses,
+a by-fields lookup, a reset -/
 example : histOK witnessU Track.empty
-    [(w3, .build 1 none), (w3, .build 0 (some "urn:a".toList)), (w3, .build 7 none),
-     (w3, .findType "Nope".toList), (w3, .fetch 0 (some "urn:a".toList) (some "C".toList)),
-     (w3, .reset), (w3, .build 0 (some "urn:b".toList))] := by
-  decide
-
-/-- and the witness history violates exactly condition (i) -/
-example : ¬ histOK witnessU Track.empty
-    [(w3, .build 0 (some "urn:a".toList)), (w3, .build 0 (some "urn:b".toList))] := by
+    [(w3, .build 1 none), (w3, .build 0 (some "urn:a".toList)), (w3, .build 0 (some "urn:b".toList)),
+     (w3, .build 7 none), (w3, .findType "Nope".toList),
+     (w3, .fetch 0 (some "urn:a".toList) (some "C".toList)), (w3, .findTypeByFields ["x".toList]),
+     (w3, .reset), (w3, .findType "{urn:a}PA".toList)] := by
   decide
 
 /-- call-by-call form: all results of an admissible history equal the fresh results -/
@@ -189,25 +214,11 @@ theorem all_calls_equal_fresh (U : Universe) (h : List (World × Op))
     simp only [runOuts, List.map_cons]
     rw [ih _ _ hI' hh.2, hs, fresh_refines_spec U w op (okStep_empty hh.1)]
 
-/-- a universe in which every class declares `Meta.namespace` (what xsdata
-generates for schemas with a target namespace) can never violate condition (i) -/
-theorem declared_consistent (U : Universe) (hd : allDeclared U) (us : List Use) : consistent U us := by
-  intro a _ b _ _ hs
-  unfold nsSensitive at hs
-  cases hg : U.get? a.1 with
-  | none => simp [hg] at hs
-  | some d =>
-    have hmem : d ∈ U.classes := by
-      unfold Universe.get? at hg
-      exact List.mem_of_getElem? hg
-    have := hd d hmem
-    simp [hg] at hs
-    simp [hs] at this
-
-/-- **history independence for fully declared models**: with a fixed world,
-every indexed class buildable and no unbuildable class carrying an xsi name,
-any history whatsoever (failing calls included) is harmless -/
-theorem history_independent_declared (U : Universe) (hd : allDeclared U) (w : World)
+/-- **history independence in a fixed world**: when no classes or modules are
+loaded during the history and every indexed class is buildable (nothing can be
+evicted), *any* history whatsoever (failing calls included) is harmless for
+*every* call — no assumption on namespaces is left -/
+theorem history_independent_fixed_world (U : Universe) (w : World)
     (hb : ∀ c ∈ indexedClasses (pureIndex U w.loaded), buildable U c = true)
     (hb2 : ∀ c < U.classes.length, buildable U c = true ∨ indexKey U c = none)
     (h : List Op) (op : Op) :
@@ -222,7 +233,7 @@ theorem history_independent_declared (U : Universe) (hd : allDeclared U) (w : Wo
   | nil => intro _; trivial
   | cons o rest ih =>
     intro hw
-    refine ⟨⟨declared_consistent U hd _, ?_, ?_⟩, ih _ ?_⟩
+    refine ⟨⟨?_, ?_⟩, ih _ ?_⟩
     · intro a ha b hb' _
       have ha' : a = w := by
         cases List.mem_cons.mp ha with
@@ -249,20 +260,11 @@ theorem history_independent_declared (U : Universe) (hd : allDeclared U) (w : Wo
         | inl h => exact h
         | inr h => exact hw w' h
 
-/-- the hypotheses of `history_independent_declared` are satisfiable -/
-def declaredU : Universe :=
-  ⟨[ { name := "A".toList, base := none, isModel := true, inPkg := true, ns := some (some "urn:a".toList),
-       mname := none, targetNs := none, moduleNs := none, globalType := true, inner := false, bad := false,
-       fields := [⟨"x".toList, .element, none, none, none⟩] },
-     { name := "B".toList, base := some 0, isModel := true, inPkg := true, ns := some none,
-       mname := none, targetNs := none, moduleNs := none, globalType := true, inner := false, bad := false,
-       fields := [⟨"a".toList, .element, none, none, some 0⟩] } ]⟩
-
-example : allDeclared declaredU ∧
-    (∀ c ∈ indexedClasses (pureIndex declaredU 2), buildable declaredU c = true) ∧
-    (∀ c < declaredU.classes.length, buildable declaredU c = true ∨ indexKey declaredU c = none) := by
+/-- the hypotheses of `history_independent_fixed_world` are satisfiable, also by
+the universe whose class `C` declares no namespace -/
+example : (∀ c ∈ indexedClasses (pureIndex witnessU 3), buildable witnessU c = true) ∧
+    (∀ c < witnessU.classes.length, buildable witnessU c = true ∨ indexKey witnessU c = none) := by
   decide
-
 
 /-! ## Document level: serialising through a shared context -/
 
@@ -271,19 +273,18 @@ def docPA : List Tok := [.enter 0 1, .enter 0 0, .leaf 0, .leave, .leave]
 /-- `PB(c=C(x=..))` -/
 def docPB : List Tok := [.enter 0 2, .enter 0 0, .leaf 0, .leave, .leave]
 
-/-- (finding C14-F1 at document level) serialising `PB` after `PA` through one
-context puts `PA`'s namespace on `C`'s child element. -/
-theorem serialize_counterexample :
+/-- (former finding C14-F1 at document level) serialising `PB` after `PA` through
+one context now writes `PB`'s namespace on `C`'s child element, as a fresh
+context does; instance of `metadata_history_independent`, evaluated. -/
+theorem serialize_repaired :
     fresh witnessU w3 (.serialize docPB)
       = .gotNames ["{urn:b}PB".toList, "{urn:b}c".toList, "{urn:b}x".toList] ∧
     (step witnessU w3 (run witnessU State.init [(w3, .serialize docPA)]) (.serialize docPB)).2
-      = .gotNames ["{urn:b}PB".toList, "{urn:b}c".toList, "{urn:a}x".toList] := by
+      = .gotNames ["{urn:b}PB".toList, "{urn:b}c".toList, "{urn:b}x".toList] := by
   decide
 
-/-- whereas any number of repetitions of the *same* documents is harmless
-(instance of `history_independent_partial`; the side conditions are decided) -/
-example : histOK witnessU Track.empty
-    [(w3, .serialize docPA), (w3, .serialize docPA), (w3, .build 1 none), (w3, .serialize docPA)] := by
+/-- serialisation is index-free: `metadata_history_independent` applies to it -/
+example : (Op.serialize docPB).indexFree = true ∧ (Op.build 0 (some "urn:b".toList)).indexFree = true := by
   decide
 
 /-! ## Memoised helpers -/
@@ -325,15 +326,20 @@ theorem nsmap_not_observed {Doc R} (decls : Doc → NsMap) (bind : Doc → R) (p
     (∀ m, parseCall decls bind p doc (some m) = (p, bind doc, some (registerAll m (decls doc)))) := by
   cases arg <;> exact ⟨rfl, fun _ => rfl⟩
 
-/-- but the instance attribute itself is history dependent (finding C14-F4):
-after a document binding prefix `p` to `urn:a`, a second document binding `p`
-to `urn:b` leaves `parser.ns_map["p"] == "urn:a"`. -/
-theorem recorder_accumulates_counterexample :
+/-- **recorder_per_document** (former finding C14-F4): when the caller passes no
+map, the instance records the prefixes of the current document only — whatever
+it recorded before: `parser.ns_map` after a parse is the same on a shared and on
+a fresh parser instance. -/
+theorem recorder_per_document {Doc R} (decls : Doc → NsMap) (bind : Doc → R) (p p' : ParserInst)
+    (doc : Doc) :
+    (parseCall decls bind p doc none).1 = (parseCall decls bind p' doc none).1 := rfl
+
+/-- the former witness: a document binding `p=urn:a`, then one binding `p=urn:b` -/
+example :
     let d1 : NsMap := [(some "p".toList, "urn:a".toList)]
     let d2 : NsMap := [(some "p".toList, "urn:b".toList)]
     let call := parseCall (Doc := NsMap) (R := Unit) id (fun _ => ())
-    (call (call ⟨[]⟩ d1 none).1 d2 none).1.nsMap = [(some "p".toList, "urn:a".toList)] ∧
-    (call ⟨[]⟩ d2 none).1.nsMap = [(some "p".toList, "urn:b".toList)] := by
+    (call (call ⟨[]⟩ d1 none).1 d2 none).1.nsMap = [(some "p".toList, "urn:b".toList)] := by
   decide
 
 end Props.C14
